@@ -2,7 +2,14 @@
  * reference counter, run under the deterministic scheduler (harness/vsched).
  * Case lines:
  *   lock <spin|sync|mutex|try> <nthreads> <iters>      (try: acquire by a muggle_mutex_trylock / yield loop)
+ *   lock <nest|nesttry> <nthreads> <iters>            (mutex; thread 0 locks it AGAIN inside its critical section and,
+ *                                                      if that returns OK, unlocks once; the others contend with
+ *                                                      muggle_mutex_lock / one muggle_mutex_trylock per iteration)
  *   once <nthreads> [calls]                          (every racer calls muggle_call_once <calls> times, default 1)
+ *   oncem <nflags> <script0> <script1> ...            (several once-flags in flight: script = digits, the flags the
+ *                                                      thread calls in order, e.g. "010")
+ *   mutexreal <reps>                                  (REAL pthread run, no scheduler: see mutex_real())
+ *   mutextype                                         (prints the pthread type muggle_mutex_init gave its mutex)
  *   atomics <int|i32|i64|byte> <init> <op> ...        (unhooked smoke run of atomic.h, see c04_atomics.c)
  *   atomics2 <int|i32|i64> <iters>                    (same, two real threads)
  *   refcnt <init> <script0> <script1> ...      script letters: r = retain, d = release
@@ -30,20 +37,28 @@ static char scripts[VS_MAXT][64];
 static muggle_spinlock_t spin;
 static muggle_sync_t synclock;
 static muggle_mutex_t mutex;
-static int kind; /* 0 spin 1 sync 2 mutex 3 mutex through trylock */
+static int kind; /* 0 spin 1 sync 2 mutex 3 mutex through trylock 4 nested, contenders lock 5 nested, contenders trylock */
 static volatile int in_cs, counter, overlaps;
 
 static void lock_thread(void *arg)
 {
 	(void)arg;
+	int nest = kind >= 4 && vs_tid() == 0;
 	for (int i = 0; i < iters; i++) {
 		if (kind == 0) muggle_spinlock_lock(&spin);
 		else if (kind == 1) muggle_synclock_lock(&synclock);
-		else if (kind == 2) muggle_mutex_lock(&mutex);
+		else if (kind == 2 || kind == 4 || nest) muggle_mutex_lock(&mutex);
+		else if (kind == 5) { if (muggle_mutex_trylock(&mutex) != MUGGLE_OK) continue; }
 		else { while (muggle_mutex_trylock(&mutex) != MUGGLE_OK) sched_yield(); }
 		in_cs++;
 		if (in_cs != 1) { overlaps++; vs_note("enter OVERLAP"); } else vs_note("enter");
 		int c = counter;
+		if (nest) {
+			/* the owner locks again: a default pthread mutex never returns from this */
+			int r = muggle_mutex_lock(&mutex);
+			vs_note(r == MUGGLE_OK ? "nested ok" : "nested err");
+			if (r == MUGGLE_OK) muggle_mutex_unlock(&mutex);
+		}
 		vs_yield_point("cs");
 		counter = c + 1;
 		in_cs--;
@@ -54,22 +69,32 @@ static void lock_thread(void *arg)
 	}
 }
 
-static muggle_once_flag once_flag;
-static volatile int once_runs, once_done;
-static void once_func(void)
+#define MAXFLAGS 4
+static muggle_once_flag once_flag[MAXFLAGS];
+static volatile int once_runs[MAXFLAGS], once_done[MAXFLAGS];
+static int nflags;
+static char once_scripts[VS_MAXT][64];
+static const char *body_name[MAXFLAGS] = {"body", "body1", "body2", "body3"};
+static void once_body(int f)
 {
-	once_runs++;
-	vs_note("func-begin");
-	vs_yield_point("body");
-	once_done = 1;
-	vs_note("func-end");
+	once_runs[f]++;
+	vs_note("func-begin %d", f);
+	vs_yield_point(body_name[f]);      /* a slow initialiser: the scheduler may run anybody else here */
+	once_done[f] = 1;
+	vs_note("func-end %d", f);
 }
+static void once_func0(void) { once_body(0); }
+static void once_func1(void) { once_body(1); }
+static void once_func2(void) { once_body(2); }
+static void once_func3(void) { once_body(3); }
+static muggle_once_func once_funcs[MAXFLAGS] = {once_func0, once_func1, once_func2, once_func3};
 static void once_thread(void *arg)
 {
-	(void)arg;
-	for (int i = 0; i < once_calls; i++) {
-		muggle_call_once(&once_flag, once_func);
-		vs_note("ret done=%d", once_done);
+	const char *sc = (const char *)arg;
+	for (; *sc; sc++) {
+		int f = *sc - '0';
+		muggle_call_once(&once_flag[f], once_funcs[f]);
+		vs_note("ret %d done=%d", f, once_done[f]);
 	}
 }
 
@@ -93,13 +118,35 @@ static void case_line(char *line)
 	if (strcmp(op, "lock") == 0) {
 		char k[16];
 		sscanf(line, "%*s %15s %d %d", k, &nthreads, &iters);
-		kind = strcmp(k, "spin") == 0 ? 0 : strcmp(k, "sync") == 0 ? 1 : strcmp(k, "try") == 0 ? 3 : 2;
+		kind = strcmp(k, "spin") == 0 ? 0 : strcmp(k, "sync") == 0 ? 1 : strcmp(k, "try") == 0 ? 3 :
+		       strcmp(k, "nest") == 0 ? 4 : strcmp(k, "nesttry") == 0 ? 5 : 2;
 		strcpy(scen, "lock");
 	} else if (strcmp(op, "once") == 0) {
 		once_calls = 1;
 		sscanf(line, "%*s %d %d", &nthreads, &once_calls);
 		if (once_calls < 1) once_calls = 1;
+		if (once_calls > 60) once_calls = 60;
+		nflags = 1;
+		for (int i = 0; i < VS_MAXT; i++) { memset(once_scripts[i], '0', (size_t)once_calls); once_scripts[i][once_calls] = 0; }
 		strcpy(scen, "once");
+	} else if (strcmp(op, "oncem") == 0) {
+		char *p = line + 5;
+		int used = 0;
+		nflags = 0;
+		sscanf(p, "%d%n", &nflags, &used);
+		p += used;
+		nthreads = 0;
+		while (nthreads < VS_MAXT && sscanf(p, "%63s%n", once_scripts[nthreads], &used) == 1) { p += used; nthreads++; }
+		int good = nflags >= 1 && nflags <= MAXFLAGS;
+		for (int i = 0; i < nthreads; i++) {
+			if (!once_scripts[i][0]) good = 0;
+			for (char *q = once_scripts[i]; *q; q++) if (*q < '0' || *q >= '0' + nflags) good = 0;
+		}
+		if (!good) nthreads = 0;
+		strcpy(scen, "once");
+	} else if (strcmp(op, "mutexreal") == 0 || strcmp(op, "mutextype") == 0) {
+		snprintf(at_line, sizeof(at_line), "%s", line);
+		strcpy(scen, op);
 	} else if (strcmp(op, "atomics") == 0 || strcmp(op, "atomics2") == 0) {
 		snprintf(at_line, sizeof(at_line), "%s", line);
 		strcpy(scen, op);
@@ -129,9 +176,116 @@ static void atomics_case(void)
 	printf("F atomics\n");
 }
 
+/* ---- REAL pthread semantics of muggle_mutex_* (no scheduler: the threads below are not scheduled threads, so
+ * the pthread wrappers forward to the real calls).  Every timing decision errs on the quiet side: something
+ * that did not happen in time is "inconclusive" (a harness problem, reported as such), never a verdict. ---- */
+#include <pthread.h>
+#include <time.h>
+#define MR_SLOTS 64
+static muggle_mutex_t mr_mutex[MR_SLOTS];      /* static storage: a helper parked for ever in a nested lock keeps its mutex */
+static int mr_next;
+typedef struct { muggle_mutex_t *m; volatile int stage; volatile int rc; volatile int rc2; } mr_arg_t;
+static void mr_sleep_ms(int ms) { struct timespec ts = { ms / 1000, (ms % 1000) * 1000000L }; while (nanosleep(&ts, &ts) != 0) { } }
+static int mr_wait_stage(mr_arg_t *a, int stage, int ms)
+{
+	for (int i = 0; i < ms; i++) { if (__atomic_load_n(&a->stage, __ATOMIC_ACQUIRE) >= stage) return 1; mr_sleep_ms(1); }
+	return __atomic_load_n(&a->stage, __ATOMIC_ACQUIRE) >= stage;
+}
+static void mr_set(mr_arg_t *a, int stage) { __atomic_store_n(&a->stage, stage, __ATOMIC_RELEASE); }
+static void *mr_try_thread(void *p) { mr_arg_t *a = p; a->rc = muggle_mutex_trylock(a->m); if (a->rc == MUGGLE_OK) muggle_mutex_unlock(a->m); mr_set(a, 1); return NULL; }
+static void *mr_lock_thread(void *p)
+{
+	mr_arg_t *a = p;
+	mr_set(a, 1);
+	a->rc = muggle_mutex_lock(a->m);
+	mr_set(a, 2);
+	if (a->rc == MUGGLE_OK) a->rc2 = muggle_mutex_unlock(a->m);
+	mr_set(a, 3);
+	return NULL;
+}
+static void *mr_nest_thread(void *p)
+{
+	mr_arg_t *a = p;
+	a->rc = muggle_mutex_lock(a->m);
+	mr_set(a, 1);
+	if (a->rc != MUGGLE_OK) return NULL;
+	a->rc2 = muggle_mutex_lock(a->m);        /* the owner locks again */
+	mr_set(a, 2);
+	if (a->rc2 == MUGGLE_OK) muggle_mutex_unlock(a->m);
+	muggle_mutex_unlock(a->m);
+	mr_set(a, 3);
+	return NULL;
+}
+static int mr_spawn(pthread_t *th, void *(*fn)(void *), mr_arg_t *a)
+{
+	pthread_attr_t at; pthread_attr_init(&at); pthread_attr_setstacksize(&at, 1 << 18);
+	int rc = pthread_create(th, &at, fn, a);
+	pthread_attr_destroy(&at);
+	return rc;
+}
+static void mutex_real(int reps)
+{
+	if (reps < 1) reps = 1;
+	if (reps > 8) reps = 8;
+	for (int r = 0; r < reps; r++) {
+		if (mr_next + 2 > MR_SLOTS) { printf("M inconclusive out-of-slots\n"); break; }
+		muggle_mutex_t *m = &mr_mutex[mr_next++];
+		pthread_t th;
+		static mr_arg_t args[MR_SLOTS * 3];
+		static int nargs;
+		if (nargs + 3 > MR_SLOTS * 3) { printf("M inconclusive out-of-slots\n"); break; }
+		if (muggle_mutex_init(m) != MUGGLE_OK) { printf("M init failed\n"); continue; }
+		printf("M init ok\n");
+		/* 1. trylock on a held mutex is refused, on a free one it succeeds */
+		int rc = muggle_mutex_lock(m);
+		printf("M lock free %s\n", rc == MUGGLE_OK ? "ok" : "err");
+		mr_arg_t *a = &args[nargs++]; memset((void *)a, 0, sizeof(*a)); a->m = m;
+		if (mr_spawn(&th, mr_try_thread, a) != 0 || !mr_wait_stage(a, 1, 5000)) printf("M inconclusive trylock-held\n");
+		else { pthread_join(th, NULL); printf("M trylock held %s\n", a->rc == MUGGLE_OK ? "ACQUIRED" : "refused"); }
+		/* 2. lock returns OK only when acquired: a second thread's lock has not returned while we hold */
+		mr_arg_t *b = &args[nargs++]; memset((void *)b, 0, sizeof(*b)); b->m = m;
+		if (mr_spawn(&th, mr_lock_thread, b) != 0 || !mr_wait_stage(b, 1, 5000)) printf("M inconclusive lock-held\n");
+		else {
+			mr_sleep_ms(60);
+			int early = __atomic_load_n(&b->stage, __ATOMIC_ACQUIRE) >= 2;
+			int early_rc = b->rc;
+			muggle_mutex_unlock(m);
+			if (!mr_wait_stage(b, 3, 5000)) printf("M inconclusive lock-after-release\n");
+			else {
+				pthread_join(th, NULL);
+				if (early) printf("M lock held returned %s\n", early_rc == MUGGLE_OK ? "OK-WHILE-HELD" : "err");
+				else printf("M lock held blocked then %s unlock %s\n", b->rc == MUGGLE_OK ? "ok" : "err", b->rc2 == MUGGLE_OK ? "ok" : "err");
+			}
+		}
+		rc = muggle_mutex_trylock(m);
+		printf("M trylock free %s\n", rc == MUGGLE_OK ? "ok" : "refused");
+		if (rc == MUGGLE_OK) muggle_mutex_unlock(m);
+		muggle_mutex_destroy(m);
+		/* 3. a nested lock by the owner never returns OK while the first level is held: the owner is a helper
+		 *    thread (with a default mutex it stays parked for ever; its mutex lives in static storage) */
+		muggle_mutex_t *m2 = &mr_mutex[mr_next++];
+		if (muggle_mutex_init(m2) != MUGGLE_OK) { printf("M init failed\n"); continue; }
+		mr_arg_t *c = &args[nargs++]; memset((void *)c, 0, sizeof(*c)); c->m = m2;
+		if (mr_spawn(&th, mr_nest_thread, c) != 0 || !mr_wait_stage(c, 1, 5000) || c->rc != MUGGLE_OK) { printf("M inconclusive nested\n"); continue; }
+		pthread_detach(th);
+		if (mr_wait_stage(c, 2, 150)) printf("M nested lock by the owner returned %s\n", c->rc2 == MUGGLE_OK ? "OK-WHILE-HELD" : "err");
+		else printf("M nested lock by the owner blocked\n");
+	}
+	printf("F mutexreal\n");
+}
+
 static void case_end(void)
 {
 	if (strncmp(scen, "atomics", 7) == 0) { atomics_case(); return; }
+	if (strcmp(scen, "mutexreal") == 0) { int reps = 1; sscanf(at_line, "%*s %d", &reps); mutex_real(reps); return; }
+	if (strcmp(scen, "mutextype") == 0) {
+		muggle_mutex_t m;
+		int rc = muggle_mutex_init(&m);
+		printf("F mutextype init=%d type=%d normal=%d default=%d\n", rc, vs_mutex_type(&m.mtx),
+		       (int)PTHREAD_MUTEX_NORMAL, (int)PTHREAD_MUTEX_DEFAULT);
+		if (rc == MUGGLE_OK) muggle_mutex_destroy(&m);
+		return;
+	}
 	if (!scen[0] || nthreads <= 0 || nthreads > VS_MAXT) { printf("F badcase\n"); return; }
 	vs_reset();
 	vs_set_schedule(sched);
@@ -142,9 +296,10 @@ static void case_end(void)
 		else { muggle_mutex_init(&mutex); vs_name(&mutex.mtx, "lock"); }
 		for (int i = 0; i < nthreads; i++) vs_spawn(lock_thread, NULL);
 	} else if (strcmp(scen, "once") == 0) {
-		once_flag = MUGGLE_ONCE_FLAG_INIT; once_runs = once_done = 0;
-		vs_name(&once_flag, "flag");
-		for (int i = 0; i < nthreads; i++) vs_spawn(once_thread, NULL);
+		for (int f = 0; f < MAXFLAGS; f++) { once_flag[f] = MUGGLE_ONCE_FLAG_INIT; once_runs[f] = once_done[f] = 0; }
+		vs_name(&once_flag[0], "flag");
+		for (int f = 1; f < nflags; f++) vs_name(&once_flag[f], "flag%d", f);
+		for (int i = 0; i < nthreads; i++) vs_spawn(once_thread, once_scripts[i]);
 	} else {
 		int rc = muggle_ref_cnt_init(&ref, refinit);
 		printf("F refinit %d\n", rc);
@@ -154,7 +309,10 @@ static void case_end(void)
 	}
 	int st = vs_run();
 	if (strcmp(scen, "lock") == 0) printf("F counter=%d overlaps=%d\n", counter, overlaps);
-	else if (strcmp(scen, "once") == 0) printf("F runs=%d done=%d\n", once_runs, once_done);
+	else if (strcmp(scen, "once") == 0) {
+		printf("F runs=%d done=%d\n", once_runs[0], once_done[0]);
+		for (int f = 1; f < nflags; f++) printf("F flag%d runs=%d done=%d\n", f, once_runs[f], once_done[f]);
+	}
 	else printf("F ref=%d\n", (int)muggle_ref_cnt_val(&ref));
 	if (st != 0) {
 		/* threads are parked for ever: finish the case and ask the runner to restart us */
